@@ -124,8 +124,9 @@ static void ev_add(thr_t *t, char kind, int H, const char *msg)
    instance's heap memory faults and is reported. */
 #include <sys/mman.h>
 #include <signal.h>
-static int iso_on, in_lib;
-static int cur_owner;                 /* 0 = harness / no instance */
+static int iso_on;
+static __thread int in_lib;
+static __thread int cur_owner;        /* 0 = harness / no instance */
 static int n_owner;
 static int cur_tid = -1, cur_op = -1; static const char *cur_name = "";
 #define MAXREG 8192
@@ -399,6 +400,34 @@ static void own(thr_t *t, int k, const char *what, const char *got, const char *
     t->ownfail = 1;
     snprintf(t->ownmsg, sizeof(t->ownmsg), "op=%d %s: got \"%.120s\" expected to contain \"%.60s\"", k, what, got, want);
   }
+}
+
+
+/* ---- nested use: a tj3Transform custom filter that calls TurboJPEG functions on ANOTHER instance of the same thread */
+typedef struct { thr_t *t; tjhandle outer, inner; int kind, calls; } nest_t;
+
+static int nest_filter(short *coeffs, tjregion arrayRegion, tjregion planeRegion, int componentID, int transformID,
+                       tjtransform *transform)
+{
+  nest_t *n = (nest_t *)transform->data;
+  thr_t *t = n->t;
+  (void)planeRegion; (void)transformID;
+  if (componentID != 0 || arrayRegion.y != 0 || n->calls) return 0;
+  n->calls++;
+  int save_lib = in_lib;
+  switch (n->kind % 3) {
+  case 0: CK(n->inner, tj3Set(n->inner, TJPARAM_BOTTOMUP, 0)); break;                 /* succeeds */
+  case 1: CK(n->inner, tj3Set(n->inner, TJPARAM_SUBSAMP, 1000 + n->kind)); break;     /* fails: TurboJPEG-level message on the inner instance */
+  default: {                                                                             /* compress a preview / fail if the inner instance cannot */
+    unsigned char preview[64], *buf = NULL; size_t size = 0;
+    for (int i = 0; i < 64; i++) { int v = 128 + coeffs[i] / 8; preview[i] = (unsigned char)(v < 0 ? 0 : v > 255 ? 255 : v); }
+    CK(n->inner, tj3Set(n->inner, TJPARAM_NOREALLOC, 0));
+    CK(n->inner, tj3Compress8(n->inner, preview, 8, 0, 8, TJPF_GRAY, &buf, &size));
+    if (buf) tj3Free(buf);
+    break; }
+  }
+  own_set(n->outer); in_lib = save_lib;      /* back inside the outer call */
+  return 0;
 }
 
 static void run_op(thr_t *t, int k)
@@ -760,6 +789,35 @@ static void run_op(thr_t *t, int k)
     lj_decompress(t, k, a[0] % NS, a[1], a[2], a[3]);
   } else if (!strcmp(n, "ljcomp")) {  /* ljcomp slot w h q opt seed : raw libjpeg API compression into a slot */
     lj_compress(t, k, a[0] % NS, a[1], a[2], a[3], a[4], (uint32_t)a[5]);
+
+  } else if (!strcmp(n, "nested")) {  /* nested H slot Hin kind small op : tj3Transform whose custom filter uses instance Hin */
+    int H = a[0] % NH, S = a[1] % NS, Hin = a[2] % NH;
+    tjhandle hd = t->h[H], hin = t->h[Hin];
+    if (!hd || t->htype[H] != TJINIT_TRANSFORM || !t->slot[S] || !hin || Hin == H) { logf_(t, "%d nested skip", k); return; }
+    t->mark[Hin][0] = 0;
+    nest_t ctx = { t, hd, hin, a[3], 0 };
+    tjtransform xf; memset(&xf, 0, sizeof(xf));
+    xf.op = a[5] % 8; xf.customFilter = nest_filter; xf.data = &ctx;
+    size_t cap = a[4] % 3 == 0 ? 0 : a[4] % 3 == 1 ? 1500 : 4096;
+    unsigned char *dst = cap ? (unsigned char *)malloc(cap) : NULL; size_t dsz = cap;
+    CK(hd, tj3Set(hd, TJPARAM_NOREALLOC, cap ? 1 : 0));
+    CK(hd, tj3Set(hd, TJPARAM_SCANLIMIT, 0)); CK(hd, tj3Set(hd, TJPARAM_MAXMEMORY, 0));
+    int rc = CK(hd, tj3Transform(hd, t->slot[S], t->slotsize[S], 1, &dst, &dsz, &xf));
+    char outer_msg[JMSG_LENGTH_MAX]; snprintf(outer_msg, sizeof(outer_msg), "%s", tj3GetErrorStr(hd));
+    logf_(t, "%d nested op%d kind%d cap%zu -> %d filter-calls=%d size=%zu", k, a[5] % 8, a[3] % 3, cap, rc, ctx.calls, rc == 0 ? dsz : 0);
+    /* an instance-less failure in between, so that the thread-local fallback cannot supply the right text by accident */
+    size_t z = tj3JPEGBufSize(-1, 1, 0);
+    ev_add(t, 'T', -1, tj3GetErrorStr(NULL));
+    logf_(t, "  nested helper %zu", z);
+    char s_hd[JMSG_LENGTH_MAX], s_hin[JMSG_LENGTH_MAX];
+    errinfo(t, hd, "nested-outer"); snprintf(s_hd, sizeof(s_hd), "%s", tj3GetErrorStr(hd));
+    errinfo(t, hin, "nested-inner"); snprintf(s_hin, sizeof(s_hin), "%s", tj3GetErrorStr(hin));
+    if (rc < 0) own(t, k, "cross-instance: message of the failing outer transform instance after a nested call", s_hd, outer_msg);
+    if (rc < 0 && strcmp(outer_msg, "tj3JPEGBufSize(): Invalid argument") && ctx.kind % 3 != 1 && !strcmp(s_hin, outer_msg))
+      own(t, k, "cross-instance: the inner instance (which did not fail) reports the outer instance's failure", s_hin, "<own>");
+    own_set(hd);
+    CK(hd, tj3Set(hd, TJPARAM_NOREALLOC, 0));
+    if (rc == 0 && !cap) tj3Free(dst); else free(dst);
   } else if (!strcmp(n, "geterr")) {
     int H = a[0] % NH;
     if (t->h[H]) errinfo(t, t->h[H], "geterr"); else logf_(t, "%d geterr skip", k);
